@@ -12,6 +12,9 @@ pub use self::{
     utf8::Utf8Bytes,
 };
 
+#[cfg(tungstenite_verif)]
+pub use self::mask::verif_set_mask_seed;
+
 use crate::{
     error::{CapacityError, Error, ProtocolError, Result},
     protocol::frame::mask::apply_mask,
